@@ -174,16 +174,47 @@ def path_arg(base, kind):
         return os.path.basename(base)          # the caller has chdir'ed into the directory
     if kind == "slash":
         return base + "/"
+    # spellings that differ from their resolved form (the caller prepares HOME / cwd / links)
+    d, name = os.path.dirname(base), os.path.basename(base)
+    if kind == "tilde":
+        return "~/" + name                     # HOME is the directory of base
+    if kind == "dot":
+        return "./" + name                     # cwd is the directory of base
+    if kind == "dotdot":
+        return os.path.join(d, "sub", "..", name)
+    if kind == "dirdot":
+        return d + "/./" + name
+    if kind == "symdir":
+        return os.path.join(d + "_lnk", name)  # d_lnk -> d
+    if kind == "symfile":
+        return os.path.join(d, "l." + name.split(".", 1)[1])   # l.<ext> -> t.<ext>
     raise RuntimeError("kind " + kind)
+
+
+def prepare_spelling(base, kind):
+    d = os.path.dirname(base)
+    if kind == "dotdot":
+        os.makedirs(os.path.join(d, "sub"), exist_ok=True)
+    elif kind == "symdir":
+        if not os.path.islink(d + "_lnk"):
+            os.symlink(d, d + "_lnk")
+    elif kind == "symfile":
+        l = path_arg(base, kind)
+        if not os.path.islink(l):
+            os.symlink(base, l)
 
 
 def do_action(case, base, kind="str"):
     ext, entry, frames, force = case["ext"], case["entry"], case["frames"], case["force"]
     new = make_traj(list(range(frames)))
     cwd = os.getcwd()
+    home = os.environ.get("HOME")
     try:
-        if kind == "rel":
+        if kind in ("rel", "dot"):
             os.chdir(os.path.dirname(base))
+        if kind == "tilde":
+            os.environ["HOME"] = os.path.dirname(base)
+        prepare_spelling(base, kind)
         arg = path_arg(base, kind)
         if entry == "save":
             new.save(arg, force_overwrite=force)
@@ -213,6 +244,8 @@ def do_action(case, base, kind="str"):
         return type(e).__name__, str(e)[:200]
     finally:
         os.chdir(cwd)
+        if home is not None:
+            os.environ["HOME"] = home
 
 
 def place_pre(case, d, path):
@@ -259,6 +292,15 @@ def run_case(case, root, idx):
     cwd_before = set(os.listdir(os.getcwd()))
     raised, msg = do_action(case, base, kind)
     after = [snap(p) for p in observed_paths(base)]
+    link_state, load0 = None, None
+    if kind == "symfile":
+        l = path_arg(base, kind)
+        link_state = "link" if os.path.islink(l) else ("file" if os.path.lexists(l) else "gone")
+        if link_state == "file" and after[0] == before[0]:
+            # the link was replaced by a regular file holding the new content (unlink + create): report the
+            # spelled path in place of the resolved one, whose content is untouched
+            after[0] = snap(l)
+            load0 = l
     stray_cwd = sorted(set(os.listdir(os.getcwd())) - cwd_before)
     for x in stray_cwd:
         q = os.path.join(os.getcwd(), x)
@@ -273,6 +315,8 @@ def run_case(case, root, idx):
     plain = False
     frames = case["frames"]
     for i, p in enumerate(observed_paths(base)):
+        if i == 0 and load0:
+            p = load0
         b, a, rf = before[i], after[i], ref[i]
         if a == b:
             status.append("Unchanged")
@@ -324,12 +368,16 @@ def run_case(case, root, idx):
         status.append(st)
         if why:
             detail.append("path %d: %s" % (i, why))
-    known = set(os.path.basename(p) for p in observed_paths(base))
+    known = set(os.path.basename(p) for p in observed_paths(base)) | {"sub"}
+    if kind == "symfile":
+        known.add(os.path.basename(path_arg(base, kind)))
+    if os.path.islink(d + "_lnk"):
+        os.unlink(d + "_lnk")
     stray = sorted(x for x in os.listdir(d) if x not in known)
     shutil.rmtree(top, ignore_errors=True)
     shutil.rmtree(r, ignore_errors=True)
     return {"raised": raised, "msg": msg, "status": status, "stray": stray, "detail": detail,
-            "ref_raised": rraised, "stray_cwd": [x[:60] for x in stray_cwd]}
+            "ref_raised": rraised, "stray_cwd": [x[:60] for x in stray_cwd], "link_state": link_state}
 
 
 # ------------------------------------------------------------------ read entry points
